@@ -670,6 +670,15 @@ func ruleExecute(c *Ctx) {
 				if fn.Pkg() != nil && fn.Pkg().Path() == "database/sql" && strings.HasPrefix(fn.Name(), "Begin") {
 					out = append(out, "called:begin")
 				}
+				// a helper of this package that is handed the transaction and rolls it back on
+				// every path counts as the rollback
+				if fn.Pkg() == b.Pkg.Types {
+					for i, a := range call.Args {
+						if mentions(info, a, txObj) && alwaysCallsOnParam(b.Pkg, fn, i, "Rollback") {
+							out = append(out, "called:tx.Rollback")
+						}
+					}
+				}
 			}
 			return out
 		}
@@ -713,6 +722,9 @@ func ruleExecute(c *Ctx) {
 				o.Path = facts.list()
 			} else {
 				nFail++
+				for _, f := range gen(rs) { // calls evaluated by the return statement itself
+					facts[f] = true
+				}
 				ok := facts["failed:begin"] || facts["called:tx.Rollback"] || facts["failed:tx.Commit"]
 				o := c.check(ok, fmt.Sprintf("%s/rollback-on-error#%d", key, i), rs.Pos(), "error return after rollback / failed begin / failed commit", "an error return leaves the SQL transaction neither rolled back nor committed")
 				o.Path = facts.list()
@@ -1530,4 +1542,37 @@ func ruleSchema(facts map[string][]string) ruleFn {
 			}
 		}
 	}
+}
+
+// alwaysCallsOnParam reports whether the package-level function fn calls <param i>.<method>() on
+// every path from its entry to each of its returns.
+func alwaysCallsOnParam(pk *packages.Package, fn *types.Func, i int, method string) bool {
+	fd := funcDeclOf(pk, fn)
+	sig := fn.Type().(*types.Signature)
+	if fd == nil || fd.Body == nil || i >= sig.Params().Len() {
+		return false
+	}
+	par := sig.Params().At(i)
+	info := pk.TypesInfo
+	g := buildCFG(pk, fd.Body)
+	gen := func(n ast.Node) []string {
+		for _, call := range callsIn(n) {
+			if se, ok := ast.Unparen(call.Fun).(*ast.SelectorExpr); ok && se.Sel.Name == method {
+				if id, ok := ast.Unparen(se.X).(*ast.Ident); ok && info.Uses[id] == par {
+					return []string{"called"}
+				}
+			}
+		}
+		return nil
+	}
+	rets := mustFacts(g, gen, nil, func(n ast.Node) bool { _, ok := n.(*ast.ReturnStmt); return ok })
+	if len(rets) == 0 {
+		return false
+	}
+	for rs, f := range rets {
+		if !f["called"] && len(gen(rs)) == 0 {
+			return false
+		}
+	}
+	return true
 }
